@@ -1809,17 +1809,20 @@ func (b Block) StringDump(verbose bool) string {
 	return s
 }
 
-// assumes b.data is set and we need to compute all other properties of a Block
+// assumes b.data is set and we need to compute all other properties of a Block.
+// The data can come from a client, so every embedded count is checked against the
+// number of bytes actually present and every sub-block index against the label table
+// before the aliased slices are handed to code that trusts them.
 func (b *Block) setExportedVars() (err error) {
+	if len(b.data) < 16 {
+		return fmt.Errorf("block data of %d bytes is too short for a header", len(b.data))
+	}
+	dataBytes := uint64(len(b.data))
+
 	// Get the sub-blocks along each dimension
 	gx := binary.LittleEndian.Uint32(b.data[0:4])
 	gy := binary.LittleEndian.Uint32(b.data[4:8])
 	gz := binary.LittleEndian.Uint32(b.data[8:12])
-	numSubBlocks := uint32(gx * gy * gz)
-
-	b.Size[0] = int32(gx * SubBlockSize)
-	b.Size[1] = int32(gy * SubBlockSize)
-	b.Size[2] = int32(gz * SubBlockSize)
 
 	numLabels := binary.LittleEndian.Uint32(b.data[12:16])
 	if numLabels == 0 {
@@ -1832,8 +1835,21 @@ func (b *Block) setExportedVars() (err error) {
 	if numLabels > MaxBlockSize*MaxBlockSize*MaxBlockSize {
 		return fmt.Errorf("number of labels (%d) exceeds what can be contained in max block size %d", numLabels, MaxBlockSize)
 	}
+	numSubBlocks := uint32(gx * gy * gz)
+	if numSubBlocks == 0 {
+		return fmt.Errorf("block has no voxels: %d x %d x %d sub-blocks", gx, gy, gz)
+	}
 
-	b.Labels, err = dvid.AliasByteToUint64(b.data[16 : 16+numLabels*8])
+	b.Size[0] = int32(gx * SubBlockSize)
+	b.Size[1] = int32(gy * SubBlockSize)
+	b.Size[2] = int32(gz * SubBlockSize)
+
+	pos := uint64(16)
+	labelBytes := uint64(numLabels) * 8
+	if pos+labelBytes > dataBytes {
+		return fmt.Errorf("block header declares %d labels but only %d bytes follow the header", numLabels, dataBytes-pos)
+	}
+	b.Labels, err = dvid.AliasByteToUint64(b.data[pos : pos+labelBytes])
 	if err != nil {
 		return
 	}
@@ -1845,26 +1861,47 @@ func (b *Block) setExportedVars() (err error) {
 		return
 	}
 
-	pos := uint32(16)
-	pos += numLabels * 8
-	nbytes := numSubBlocks * 2
+	pos += labelBytes
+	nbytes := uint64(numSubBlocks) * 2
+	if pos+nbytes > dataBytes {
+		return fmt.Errorf("block of %d bytes is too short for the label counts of %d sub-blocks", dataBytes, numSubBlocks)
+	}
 	b.NumSBLabels, err = dvid.AliasByteToUint16(b.data[pos : pos+nbytes])
 	if err != nil {
 		return
 	}
-	var numSubBlockIndices uint32
-	for _, num := range b.NumSBLabels {
-		numSubBlockIndices += uint32(num)
+	var numSubBlockIndices, valueBytes uint64
+	for i, num := range b.NumSBLabels {
+		if num > SubBlockSize*SubBlockSize*SubBlockSize {
+			return fmt.Errorf("sub-block %d declares %d labels, more than its %d voxels", i, num, SubBlockSize*SubBlockSize*SubBlockSize)
+		}
+		numSubBlockIndices += uint64(num)
+		// each sub-block with more than one label has SubBlockSize^3 packed values, padded to a byte
+		valueBytes += uint64(bitsFor(num)) * SubBlockSize * SubBlockSize * SubBlockSize / 8
+	}
+	if numSubBlockIndices == 0 {
+		return fmt.Errorf("block with %d labels uses none of them in its %d sub-blocks", numLabels, numSubBlocks)
 	}
 
 	pos += nbytes
 	subBlockIndexBytes := numSubBlockIndices * 4
+	if pos+subBlockIndexBytes > dataBytes {
+		return fmt.Errorf("block of %d bytes is too short for its %d sub-block indices", dataBytes, numSubBlockIndices)
+	}
 	b.SBIndices, err = dvid.AliasByteToUint32(b.data[pos : pos+subBlockIndexBytes])
 	if err != nil {
 		return
 	}
+	for i, index := range b.SBIndices {
+		if index >= numLabels {
+			return fmt.Errorf("sub-block index %d refers to label %d of a table of %d labels", i, index, numLabels)
+		}
+	}
 
 	pos += subBlockIndexBytes
+	if pos+valueBytes > dataBytes {
+		return fmt.Errorf("block of %d bytes is too short for the %d bytes of packed sub-block values", dataBytes, valueBytes)
+	}
 	b.SBValues = b.data[pos:]
 	return
 }
